@@ -193,7 +193,7 @@ def _constant_prop_pass(block, silence_unexpected_net_warnings=False):
         '&': lambda left, right: left & right,
         '|': lambda left, right: left | right,
         '^': lambda left, right: left ^ right,
-        'n': lambda left, right: 1 - (left & right),
+        'n': lambda left, right, mask=1: ~(left & right) & mask,
     }
 
     def _constant_prop_error(net, error_str):
@@ -253,7 +253,11 @@ def _constant_prop_pass(block, silence_unexpected_net_warnings=False):
 
         else:
             # this optimization is actually compatible with long wires
-            if net_checking.op in two_var_ops:
+            if net_checking.op == 'n':
+                output = two_var_ops['n'](net_checking.args[0].val,
+                                          net_checking.args[1].val,
+                                          net_checking.args[0].bitmask)
+            elif net_checking.op in two_var_ops:
                 output = two_var_ops[net_checking.op](net_checking.args[0].val,
                                                       net_checking.args[1].val)
             else:
